@@ -142,11 +142,12 @@ package hessian
 //@ func (*Encoder).Reset
 //@   covers e
 //@   config nameMap
-//@   assigns e.writer, e.clsDefList, e.refMap, @opens, @clashes, @tr
+//@   assigns e.writer, e.clsDefList, e.refMap, e.failed, @opens, @clashes, @tr
 //@   sets @opens = 0
 //@   sets @clashes = 0
 //@   sets @tr = emp
 //@   ensures [C11:enc-reset-state] e.writer == w && len(e.clsDefList) == 0 && mapsize(e.refMap) == 0 && fresh(e.refMap) && e.refMap != nil
+//@   ensures [C11,C13:enc-reset-clears-failure] e.failed == nil
 
 //@ func (*Decoder).Reset
 //@   covers d
